@@ -2,7 +2,7 @@
    In both models a panic, an arithmetic overflow (checked arithmetic), an out-of-range shift and an
    unreachable-code trap all appear as the outcome [Panic]. *)
 From Coq Require Import NArith Arith Bool List Lia.
-From PK Require Import Base.Outcome Base.Finite Base.Machine Gen.Types Impl Spec.Frame Spec.Event Check.Scan Check.Ps2M Check.Lay Check.Ev Enc.
+From PK Require Import Base.Outcome Base.Finite Base.Machine Gen.Types Impl Spec.Frame Spec.Mods Check.Scan Check.Ps2M Check.Lay Check.EvImpl Enc.
 Import ListNotations.
 Local Open Scope N_scope.
 
@@ -72,13 +72,13 @@ Qed.
 Definition panicking_events (I : EvImpl) : list (ev_state * KeyEvent) :=
   filter (fun x : ev_state * KeyEvent =>
             ev_reach I (fst x) && negb (match ev_step I (fst x) (snd x) with Ret (s', _) => ev_reach I s' | Panic => false end))
-         Check.Ev.all_steps.
+         Check.EvImpl.all_steps.
 Theorem C08_events (I : EvImpl) : panicking_events I = [] ->
   forall evs s, ev_reach I s = true ->
   exists s' rs, impl_run I s (map EEvent evs) = Ret (s', rs).
 Proof.
   intros H evs. induction evs as [|ev evs IH]; intros s Hs; cbn [map impl_run]; [eauto|].
-  assert (Hin : In (s, ev) Check.Ev.all_steps) by (apply in_prod; [apply all_ev_state_complete | apply all_KeyEvent_complete]).
+  assert (Hin : In (s, ev) Check.EvImpl.all_steps) by (apply in_prod; [apply all_ev_state_complete | apply all_KeyEvent_complete]).
   pose proof (filter_nil_forall _ _ H (s, ev) Hin) as B. cbn [fst snd] in B. rewrite Hs in B. cbn [andb] in B.
   apply negb_false_iff in B. destruct (ev_step I s ev) as [[s1 r]|]; [|discriminate].
   destruct (IH s1 B) as (s' & rs & R). rewrite R. eauto.
